@@ -280,6 +280,15 @@ def scenario(rng, kind):
                     prog.append("unmap %d %s" % (s, rng.choice(["all", "all", "all", "half", "frames 1", "none"])))
         elif rng.random() < 0.6:
             prog.append("yield %d" % rng.randint(1, 80))
+        if kind == "avg" and rng.random() < 0.35:
+            # a client that looks at the stream once and then does not consume for a long while: the queue fills, the averaging
+            # filter is parked in its write until the client comes back -- well after the source has delivered its last frame
+            s = rng.choice(streams)
+            mon_streams.add(s)
+            mon_started = True
+            prog.append("map %d" % s)
+            prog.append("unmap %d none" % s)
+            prog.append("yield %d" % rng.randint(250, 700))
         if trig:
             # fire some triggers; abort is the way out of a trigger wait
             for s in streams:
@@ -355,6 +364,8 @@ def api_scenario(rng):
                 else:
                     dsto = "Bad"
             prog.append("cfg %d cam=%s sto=%s n=%d avg=0 delay=%g" % (s, dcam, dsto, n, rng.choice([0, 0, 0, 0.5, 2])))
+            if dcam in ("A", "B") and rng.random() < (0.25 if while_running else 0.08):
+                prog.append("camreject %d" % "AB".index(dcam))     # the camera refuses the settings once; the runtime retries
         prog.append("configure")
         cfg_unb[0] = unb
         if while_running:
@@ -373,7 +384,15 @@ def api_scenario(rng):
             elif r < 0.65:
                 emit_cfg(False)
             elif r < 0.72:
-                prog.append(rng.choice(["stop", "abort"]))        # when idle
+                # when idle -- as far as this generator knows: a finite acquisition may have ended by itself and a "start while
+                # running" may therefore have succeeded, so a stop still drains the registered monitors first (acquire.h: a client
+                # that holds data stalls the writer, and stop waits for the writer)
+                if rng.random() < 0.5 and not cfg_unb[0] and not trig:
+                    for s in sorted(mon_streams):
+                        prog.append("drain %d" % s)
+                    prog.append("stop")
+                else:
+                    prog.append("abort")
             elif r < 0.80:
                 prog.append("state")
             elif r < 0.88:
@@ -497,6 +516,8 @@ def oracle(prog, lines, meta):
     tainted = set()               # devices touched by a configure that was issued while they (or their stream's devices) were running
     taint_open = False
     switched = [False]            # some configure-while-running asked for other devices than the running ones
+    reconf_acqs = []
+    cam_rejected = set()          # cameras stopped by a rejected camera_set of a configure-while-running
 
     def reconf_key():
         return "protocol-broken-after-configure-while-running-" + ("other-devices" if switched[0] else "same-devices")
@@ -504,7 +525,11 @@ def oracle(prog, lines, meta):
     def add8(key, k, msg):
         # once acquire_configure has been called on a running stream the run is polluted: workers may keep using devices that were
         # closed, swapped or re-armed under them, so every later device-protocol verdict of the run is classified with that call
-        if key in tainted or tainted:
+        if key in cam_rejected and not switched[0]:
+            # one symptom of this history is a recorded finding (a frame call reaches the driver after the client thread's stop);
+            # every other symptom on the camera is reported under its own key
+            add("C08", "camera-" + k + "-after-rejected-set-while-running", msg + " [after acquire_configure on a running stream whose camera refused the settings]")
+        elif key in tainted or (tainted and (switched[0] or key.startswith("sto"))):
             add("C08", reconf_key(), msg + " [" + k + "; after acquire_configure was called while the stream was running]")
         else:
             add("C08", k, msg)
@@ -551,7 +576,7 @@ def oracle(prog, lines, meta):
                         (k.startswith("cam%d#" % a.camidx) or k.startswith("sto%d#" % a.stoidx))]
                 if any(dev[k]["running"] for k in keys):
                     a.reconf = True
-                    tainted.update(keys)
+                    reconf_acqs.append((a, keys))
                     taint_open = True
                     # which devices will this configure ask for?  (the cfg lines between the previous configure and this one)
                     newcfg = dict(cfg.get(s, {}))
@@ -563,6 +588,15 @@ def oracle(prog, lines, meta):
                         q += 1
                     if (newcfg.get("cam"), newcfg.get("sto")) != (a.cfg.get("cam"), a.cfg.get("sto")):
                         switched[0] = True
+                        tainted.update(keys)                                        # devices closed / swapped under the workers
+                    else:
+                        tainted.update(k for k in keys if k.startswith("sto"))      # the running storage is re-armed (D28); the camera keeps running
+                        q2 = prog_pos
+                        while q2 < len(prog) and not prog[q2].startswith("configure"):
+                            if prog[q2].startswith("camreject %d" % a.camidx):
+                                # ... unless it refuses the settings: the HAL then stops it under the source thread
+                                cam_rejected.update(k for k in keys if k.startswith("cam"))
+                            q2 += 1
         elif l.startswith("A configure ->"):
             in_call = None
             taint_open = False
@@ -774,6 +808,15 @@ def oracle(prog, lines, meta):
                         want = px_hash_c(a.camidx, a.tag, f["hw"], cam["w"], cam["h"], cam["t"])
                         if f["px"] != want:
                             stale = any(px_hash_c(a.camidx, t, f["hw"], cam["w"], cam["h"], cam["t"]) == f["px"] for t in range(1, a.tag))
+                            # whose frame is it?  an earlier acquisition on this stream's camera that was never stopped or aborted
+                            # (a finite acquisition that ended by itself, then start again) is not covered by "once stop or abort
+                            # has returned, nothing from that acquisition is delivered later": nothing is concluded from it
+                            src_acqs = [b for b in hist[s][:ai] if b.tag is not None and b.camidx == a.camidx and
+                                        px_hash_c(b.camidx, b.tag, f["hw"], cam["w"], cam["h"], cam["t"]) == f["px"]]
+                            if src_acqs and not src_acqs[-1].returned and not fresh_seen:
+                                add("INFO", "monitor-sees-frames-of-an-acquisition-that-was-never-stopped", "")
+                                prev = None
+                                continue
                             if f.get("late") and not fresh_seen:
                                 # the reader registered for the first time during this acquisition and these frames come before
                                 # any frame of this acquisition: it joined the ring at offset 0 of the current lap (known finding)
@@ -1016,6 +1059,8 @@ def to_events(prog, lines):
             op = w[2]
             s = stream_for(kind, idx, inst, op == "open")
             a = actor(tid, s)
+            if op == "set" and "REJECTED" in l:
+                continue      # the device refused the settings: nothing changed; the runtime's retry follows
             if op in ("open", "close", "set"):
                 emit("S %d %s %s%s %d" % (s, a, op, kind, inst), i)
             elif op == "reserve":
